@@ -713,6 +713,12 @@ func (p Prop) Run(ci interface{}, focus *core.Violation) *core.Outcome {
 		if strings.Contains(tr, "wait:schema") {
 			o.Count("probe:waited_on_half_built_schema", 1)
 		}
+		if strings.HasSuffix(tr, "wait:schema:lost-store") {
+			o.Count("probe:lost_schema_store_race", 1)
+		}
+		if strings.HasSuffix(tr, "wait:schema:second-hit") {
+			o.Count("probe:schema_second_check_hit", 1)
+		}
 		if strings.Contains(tr, "valuepool:") {
 			o.Count("probe:value_pool_yield", 1)
 		}
